@@ -121,11 +121,11 @@ def structFields : Ty → Option Fields
 
 def intOf (s : String) : Option Int := s.toInt?
 
-/-- msg key of a Go field name in a schema (migrations list Go names) -/
-def msgKeyOf (schema goName : String) : Option String :=
-  match Gen.goNames.find? (·.1 = schema) with
-  | none => none
-  | some (_, l) => (l.find? (·.2 = goName)).map (·.1)
+def schemaIndex (name : String) : Option Nat :=
+  let rec go : List (String × Ty) → Nat → Option Nat
+    | [], _ => none
+    | (n, _) :: r, i => if n = name then some i else go r (i + 1)
+  go Gen.schemas 0
 
 def step (_ : Unit) (ws : List String) : Unit × String :=
   match ws with
@@ -153,16 +153,15 @@ def step (_ : Unit) (ws : List String) : Unit × String :=
       | none => ((), "fail")
     | none => ((), "bad-op")
   | ["mig", fromN, toN, vs] =>
-    match schemaOf fromN, schemaOf toN, parseVal vs, Gen.migrations.find? (fun m => m.1 = fromN ∧ m.2.1 = toN) with
-    | some ft, some tt, some (.arr old), some (_, _, copiedGo, ver) =>
-      match structFields ft, structFields tt with
-      | some ffs, some tfs =>
+    match schemaOf fromN, schemaOf toN, parseVal vs, schemaIndex fromN, schemaIndex toN with
+    | some ft, some tt, some (.arr old), some fi, some ti =>
+      match structFields ft, structFields tt, Gen.migrations.find? (fun m => m.1 = fi ∧ m.2.1 = ti) with
+      | some ffs, some tfs, some (_, _, copied, ver) =>
         if wt ft (.arr old) then
-          let copied := copiedGo.filterMap (msgKeyOf fromN)
-          ((), "hex " ++ toHex (enc tt (.arr (migrate ffs tfs copied (nameBytes ver) old))))
+          ((), "hex " ++ toHex (enc tt (.arr (migrate ffs tfs copied ver old))))
         else ((), "illtyped")
-      | _, _ => ((), "bad-op")
-    | _, _, _, _ => ((), "bad-op")
+      | _, _, _ => ((), "bad-op")
+    | _, _, _, _, _ => ((), "bad-op")
   | _ => ((), "bad-op")
 
 def run : IO Unit := ZChain.Drv.runLoop step ()
